@@ -12,7 +12,7 @@ CIRCUITSIM_STUB = {
 }
 CIRCUITSIM_ASSUME = [
     "bbolt transaction atomicity and durability are trusted; crash granularity is one kvdb transaction, interleaving granularity is transaction entry / call return (CloseCircuit, FailCircuit and the lookups are single atomic steps)",
-    "caller discipline as in lnd: CommitCircuits/DeleteCircuits for a channel's incoming keys and OpenCircuits/TrimOpenCircuits for its outgoing keys come from that channel's link, one call at a time; outgoing HTLC ids are handed out in order; an open circuit whose HTLC never reached a commitment is not deleted (documented precondition of TrimOpenCircuits: no disjoint segments); calls whose outcome the doc comments leave open (re-opening an opened circuit, duplicate keys inside one OpenCircuits batch, trimming across a hole) are not generated",
+    "caller discipline as in lnd: CommitCircuits/DeleteCircuits for a channel's incoming keys and OpenCircuits/TrimOpenCircuits for its outgoing keys come from that channel's link, one call at a time; outgoing HTLC ids are handed out in order; holes among a channel's uncommitted keystones (documented precondition of TrimOpenCircuits: no disjoint segments) are only produced in the 1/8 of sequential runs that draw the keystoneGaps scenario (mailbox expiry + delete of the oldest uncommitted keystone, or full close of the incoming channel), and TrimOpenCircuits is never called across a hole; calls whose outcome the doc comments leave open (re-opening an opened circuit, duplicate keys inside one OpenCircuits batch, trimming across a hole) are not generated",
     "small universe: 2-3 channels + local source, 4-6 incoming HTLC ids per channel, <= 24 outgoing ids per channel, 3 payment hashes",
     "LookupByPaymentHash is not judged (not an observation point of C07, no caller in lnd); a stale hash index is counted as probe_hash_index_stale (VERIF_C07_HASHINDEX=1 judges it)",
     "a clean batch is evidence, not proof: sequences and schedules are sampled from a seeded PRNG (only the 48 close/fail/delete interleavings of the enum arm are exhaustive)",
@@ -21,7 +21,7 @@ CIRCUITSIM_ASSUME = [
 CHECK = {
     "C07": dict(
         bin="run_circuitsim", build="external", pkg="run_circuitsim", level="exploration",
-        quick=dict(runs=20000, wall=80), thorough=dict(runs=400000, wall=1100),
+        quick=dict(runs=16000, wall=80), thorough=dict(runs=250000, wall=1100),
         rule="one evaluation = one seeded run of one arm. seq/fault-free and seq/faulty: a sequence of 30-90 circuit-map calls, channel events (sign, revoke, link flap, close pending/fully, resolution messages) and restarts issued by one client; the reference model is compared with every return value and with the complete lookup view (LookupCircuit over all incoming keys, LookupOpenCircuit over all outgoing keys, NumPending, NumOpen, closing set probed with FailCircuit) after every call; faulty adds FailWrite/CrashBefore/CrashAfter on the write of any call and on the 1st-4th write of NewCircuitMap. race: 2-3 client goroutines interleaved at every transaction entry and call return (<= 36 calls after a model-checked prelude), linearizability of the invoke/return history checked with porcupine, exact durable state after a clean drain or a crash at any scheduling point, restart oracle. enum: one of the 48 interleavings of CloseCircuit / FailCircuit / DeleteCircuits(memory, disk) on one circuit x 4 starting situations. non-trivial = (seq/fault-free) a restart with pending circuits and >= 3 calls after it / (seq/faulty) a fault fired and a call completed after it / (race) >= 2 calls issued while another was in flight / (enum) always; distinct = distinct event-trace hash",
         states_measure="distinct (pending, open, closing, restored-half-open counts, epoch mod 3, channel statuses) tuples; race: (pending, open, calls in flight, history length/4)",
         expected_probes=["probe_commit_fail_loaded_halfopen", "probe_commit_drop_keystone", "probe_commit_drop_in_mailbox",
@@ -42,8 +42,8 @@ ENGINE = {"name": "circuitsim", "path": "/verif/sim/circuitsim", "serves_propert
 _NOTE = ("Trusted: bbolt transaction atomicity; the reference model (about 250 lines, written from the doc comments of circuit_map.go and the property text); "
          "the caller discipline listed under assumptions. Interleavings are explored at transaction-entry granularity only (lock-free races inside one critical section are invisible). "
          "FailWrite is not combined with concurrent clients (a failed CommitCircuits/DeleteCircuits is transiently visible, which is not linearizable and not judged). "
-         "Two genuine shortfalls of start-up trimming against the property's last sentence are reported as known-finding candidates (restart-untrimmed: pending-close, purge-gap); "
-         "the scenarios that reach them are confined to 1/8 of the sequential runs each so that the rest of the batch is unaffected.")
+         "Genuine shortfalls of start-up trimming against the property's last sentence are reported as known-finding candidates (restart-untrimmed: pending-close, purge-gap, expiry-gap); "
+         "the scenarios that reach them are confined to 1/8 of the sequential runs each so that the rest of the batch is unaffected. Without the KNOWN_FINDINGS entries in known_findings.json the check exits 1 on the unchanged tree.")
 
 TEXT = {
     "C07": dict(engine="circuitsim", design_ref="DESIGN.md 5 C07",
@@ -56,7 +56,11 @@ KNOWN_FINDINGS = [
     {"property": "C07", "status": "open", "code": "restart-untrimmed", "sig": "pending-close",
      "what": "open: property=C07 keystones written by OpenCircuits for HTLCs that never reached a commitment are not rolled back at start-up when their outgoing channel is in the pending-close state (close summary with IsPending=true): trimAllOpenCircuits only walks FetchAllOpenChannels. The circuit stays 'open', re-forwards of the incoming HTLC are dropped, nothing fails it back until the channel is fully closed AND the node restarts again. Replay: sim/circuitsim/findings/C07-untrimmed-pending-close.json"},
     {"property": "C07", "status": "open", "code": "restart-untrimmed", "sig": "purge-gap",
-     "what": "open: property=C07 cleanClosedChannels deletes the keystones of circuits whose incoming channel is fully closed BEFORE trimAllOpenCircuits runs; if such a keystone sat below other uncommitted keystones of the same outgoing channel, TrimOpenCircuits' forward scan stops at the hole and the higher keystones stay open although their HTLC never reached a commitment (also after later link restarts; a new HTLC with that id then hits ErrDuplicateKeystone). Replay: sim/circuitsim/findings/C07-untrimmed-purge-gap.json"},
+     "what": "open: property=C07 TrimOpenCircuits scans forward from NextLocalHtlcIndex and stops at the first id without a keystone. cleanClosedChannels deletes the keystones of circuits whose incoming channel is fully closed BEFORE trimAllOpenCircuits runs; if such a keystone sat below other uncommitted keystones of the same outgoing channel the scan stops at the hole and the higher keystones stay open although their HTLC never reached a commitment (also after later link restarts; a new HTLC with that id then hits ErrDuplicateKeystone). Replay: sim/circuitsim/findings/C07-untrimmed-purge-gap.json"},
+    {"property": "C07", "status": "open", "code": "restart-untrimmed", "sig": "expiry-gap",
+     "what": "open: property=C07 same root cause as purge-gap (forward scan of TrimOpenCircuits stops at a hole); here the hole is made while the outgoing link is down: the mailbox expires the oldest delivered-but-uncommitted Add (FailCircuit on a circuit that has a keystone), the incoming link deletes the circuit with its keystone, the younger uncommitted keystones above it survive the next trim. Replay: sim/circuitsim/findings/C07-untrimmed-expiry-gap.json"},
     {"property": "C07", "status": "open", "code": "restart-untrimmed", "sig": "pending-close+purge-gap",
      "what": "open: property=C07 combination of the pending-close and purge-gap shortfalls of start-up trimming"},
+    {"property": "C07", "status": "open", "code": "restart-untrimmed", "sig": "pending-close+expiry-gap",
+     "what": "open: property=C07 combination of the pending-close and expiry-gap shortfalls of start-up trimming"},
 ]
